@@ -120,6 +120,16 @@ pub trait IterHandle {
     fn v_rposition(&self, target: usize) -> Option<usize>;
     fn v_find(&self, target: usize) -> Item;
     fn v_rfind(&self, target: usize) -> Item;
+    /// clone.cycle().take(t)
+    fn v_cycle_take(&self, t: usize) -> Vec<Item>;
+    /// clone.zip(clone.rev()) as (front item, back item) pairs, flattened
+    fn v_zip_rev(&self) -> Vec<Item>;
+    /// clone.chain(clone).skip(k).collect()
+    fn v_chain_skip(&self, k: usize) -> Vec<Item>;
+    /// peekable: peek, next, peek, next_if(..), ... rendered as the items seen
+    fn v_peekable(&self) -> Vec<Item>;
+    /// clone.eq(clone) and clone.ne(clone.skip(1)) through Iterator::eq on item identity
+    fn v_iter_eq(&self) -> (bool, bool);
     /// remaining items front to back, pulled one by one from a clone (bounded)
     fn rest(&self) -> Vec<Item>;
     /// remaining items back to front, pulled one by one from a clone (bounded)
@@ -295,6 +305,48 @@ where
         let x = self.it.clone().rfind(|e| self.is(e, target));
         self.id(x)
     }
+    fn v_cycle_take(&self, t: usize) -> Vec<Item> {
+        let v: Vec<E> = self.it.clone().cycle().take(t).collect();
+        self.ids(v)
+    }
+    fn v_zip_rev(&self) -> Vec<Item> {
+        let lim = self.exp.len() + 2;
+        let mut out = Vec::new();
+        for (a, b) in self.it.clone().zip(self.it.clone().rev()).take(lim) {
+            out.push(self.id(Some(a)));
+            out.push(self.id(Some(b)));
+        }
+        out
+    }
+    fn v_chain_skip(&self, k: usize) -> Vec<Item> {
+        let lim = 2 * self.exp.len() + 2;
+        let v: Vec<E> = self.it.clone().chain(self.it.clone()).skip(k).take(lim).collect();
+        self.ids(v)
+    }
+    fn v_peekable(&self) -> Vec<Item> {
+        let mut p = self.it.clone().peekable();
+        let mut out = Vec::new();
+        for round in 0..(self.exp.len() + 2) {
+            let seen = p.peek().map(|e| self.exp.iter().position(|x| x == e));
+            match seen {
+                None => {
+                    out.push(Item::None);
+                    break;
+                }
+                Some(Some(i)) => out.push(Item::Some(i)),
+                Some(None) => out.push(Item::Alien("peeked".into())),
+            }
+            let nx = if round % 2 == 0 { p.next() } else { p.next_if(|_| true) };
+            out.push(self.id(nx));
+        }
+        out
+    }
+    fn v_iter_eq(&self) -> (bool, bool) {
+        let key = |e: E| self.exp.iter().position(|x| *x == e);
+        let a = self.it.clone().map(key).eq(self.it.clone().map(key));
+        let b = self.it.clone().map(key).eq(self.it.clone().skip(1).map(key));
+        (a, b)
+    }
     fn rest(&self) -> Vec<Item> {
         // bounded: a broken iterator must not hang the simulator
         let mut c = self.it.clone();
@@ -438,6 +490,11 @@ pub enum Kind {
     VRfind,
     /// `handles[h].clone_from(&handles[k])`
     CloneFrom,
+    VCycleTake,
+    VZipRev,
+    VChainSkip,
+    VPeekable,
+    VIterEq,
 }
 
 /// (kind, script name, takes k, takes t)
@@ -473,6 +530,11 @@ pub const KINDS: &[(Kind, &str, bool, bool)] = &[
     (Kind::VFind, "v_find", true, false),
     (Kind::VRfind, "v_rfind", true, false),
     (Kind::CloneFrom, "clone_from", true, false),
+    (Kind::VCycleTake, "v_cycle_take", true, false),
+    (Kind::VZipRev, "v_zip_rev", false, false),
+    (Kind::VChainSkip, "v_chain_skip", true, false),
+    (Kind::VPeekable, "v_peekable", false, false),
+    (Kind::VIterEq, "v_iter_eq", false, false),
 ];
 
 #[derive(Clone, Debug, PartialEq)]
@@ -502,7 +564,7 @@ impl Op {
     }
     /// k arguments that are *counts* (where "huge" means something); targets of find/position are not
     pub fn k_is_count(&self) -> bool {
-        self.has_k() && !matches!(self.kind, Kind::VPosition | Kind::VRposition | Kind::VFind | Kind::VRfind | Kind::CloneFrom)
+        self.has_k() && !matches!(self.kind, Kind::VPosition | Kind::VRposition | Kind::VFind | Kind::VRfind | Kind::CloneFrom | Kind::VCycleTake)
     }
     pub fn kopt(&self) -> Option<usize> {
         if self.k_is_count() {
@@ -565,6 +627,7 @@ pub const NAMES: &[&str] = &[
     "op_step_by", "op_rev_nth", "op_rev_skip_next", "op_last", "op_count", "op_debug_fmt", "op_iter", "op_take_back",
     "op_skip_back", "op_enumerate_back", "op_step_by_back", "op_v_last", "op_v_count", "op_v_fold", "op_v_rfold",
     "op_v_collect", "op_v_rev_collect", "op_v_position", "op_v_rposition", "op_v_find", "op_v_rfind", "op_clone_from",
+    "op_v_cycle_take", "op_v_zip_rev", "op_v_chain_skip", "op_v_peekable", "op_v_iter_eq",
 ];
 const C_HUGE_FRESH: usize = 0;
 const C_HUGE_FRONT: usize = 1;
@@ -1009,6 +1072,45 @@ impl<'a> Exec<'a> {
                     let s = &slots[hi];
                     item_op!(s.real.v_rfind(k), s.model.clone().rfind(|x| *x == k))
                 }
+                Kind::VCycleTake => {
+                    let s = &slots[hi];
+                    let t = k % (2 * n + 3);
+                    list_op!(s.real.v_cycle_take(t), s.model.clone().cycle().take(t).map(Item::Some).collect())
+                }
+                Kind::VZipRev => {
+                    let s = &slots[hi];
+                    list_op!(s.real.v_zip_rev(), s.model.clone().zip(s.model.clone().rev()).flat_map(|(a, b)| [Item::Some(a), Item::Some(b)]).collect())
+                }
+                Kind::VChainSkip => {
+                    let s = &slots[hi];
+                    list_op!(s.real.v_chain_skip(k), s.model.clone().chain(s.model.clone()).skip(k).map(Item::Some).collect())
+                }
+                Kind::VPeekable => {
+                    let s = &slots[hi];
+                    let want: Vec<Item> = {
+                        let mut p = s.model.clone().peekable();
+                        let mut out = Vec::new();
+                        for round in 0..(n + 2) {
+                            match p.peek().copied() {
+                                None => {
+                                    out.push(Item::None);
+                                    break;
+                                }
+                                Some(i) => out.push(Item::Some(i)),
+                            }
+                            let nx = if round % 2 == 0 { p.next() } else { p.next_if(|_| true) };
+                            out.push(mi(nx));
+                        }
+                        out
+                    };
+                    list_op!(s.real.v_peekable(), want)
+                }
+                Kind::VIterEq => {
+                    let s = &slots[hi];
+                    let rem_now = s.model.len();
+                    let g = num_op!(s.real.v_iter_eq(), (true, rem_now == 0));
+                    self.trace.u(g.0 as u64 * 2 + g.1 as u64);
+                }
                 Kind::CloneFrom => {
                     let src = k % slots.len();
                     if src != hi {
@@ -1273,6 +1375,11 @@ pub fn gen_ops(rng: &mut Rng, n: usize) -> (Vec<Op>, bool) {
             ad(allow_by_value, 2),                       // v_find
             ad(allow_by_value, 2),                       // v_rfind
             ad(allow_clone, 3),                          // clone_from
+            ad(allow_by_value, 2),                       // v_cycle_take
+            ad(allow_by_value, 2),                       // v_zip_rev
+            ad(allow_by_value, 2),                       // v_chain_skip
+            ad(allow_by_value, 2),                       // v_peekable
+            ad(allow_by_value, 1),                       // v_iter_eq
         ];
         let kind = KINDS[rng.weighted(&w)].0;
         let mut op = Op::new(kind, h);
@@ -1283,6 +1390,8 @@ pub fn gen_ops(rng: &mut Rng, n: usize) -> (Vec<Op>, bool) {
             }
         } else if kind == Kind::CloneFrom {
             op.k = rng.usize_below(MAX_HANDLES);
+        } else if kind == Kind::VCycleTake {
+            op.k = rng.usize_below(2 * n + 3);
         } else if op.has_k() {
             // target item of find/position: any item index, sometimes one past the end
             op.k = rng.usize_below(n + 2);
